@@ -505,6 +505,11 @@ func (ex *Exec) joinInto(st *State, guard *Term, s2 *State) {
 	for k, v2 := range s2.store {
 		v1, ok := st.store[k]
 		if !ok {
+			if base, inBase := ex.base[k]; inBase {
+				v1, ok = base, true
+			}
+		}
+		if !ok {
 			st.store[k] = v2
 			continue
 		}
